@@ -110,7 +110,8 @@ Fixpoint jump_out_of_defer (ch:list fscope) : bool :=
   | s :: r => if fl s || ff s then false else if fdb s then true else jump_out_of_defer r
   end.
 
-Definition break_ok (ch:list fscope) : bool := negb (jump_out_of_defer ch) && loop_found ch.
+Definition break_ok (ch:list fscope) : bool :=
+  negb (gen_break_continue_check_defer_block && jump_out_of_defer ch) && loop_found ch.
 
 (* the case number the analyzer records in casescope.switchcase_index for the c-th case block
    (1-based); analyzer.lua writes the constant scraped into Gen.v *)
@@ -479,8 +480,15 @@ Definition agoto (id l:nat) (fs:list lframe) : errs :=
   agoto_mix id l fs ++
   (if gen_goto_checks_defer_block && goto_out_of_deferblock l fs then [(id, KGotoDefer)] else []).
 
+(* Scope:find_label: walk the enclosing chain (up to the function scope), first scope that has the label *)
+Fixpoint find_label (l:nat) (fs:list lframe) : option lframe :=
+  match fs with
+  | [] => None
+  | f :: r => if has_label l (seen f) then Some f else find_label l r
+  end.
+
 Definition alabel (id l:nat) (fs:list lframe) : errs :=
-  if existsb (fun f => has_label l (seen f)) fs then [(id, KLabelDup)] else [].
+  match find_label l fs with Some _ => [(id, KLabelDup)] | None => [] end.
 
 Fixpoint alab_stmt (fs:list lframe) (id:nat) (s:stmt) {struct s} : errs :=
   match s with
@@ -698,3 +706,6 @@ Definition off_switch (p:block) : errs := asw_block p.
 Definition offenders (p:block) : errs := off_flow p ++ off_names p ++ off_labels p ++ off_consts p ++ off_switch p.
 
 Definition analyzer_ok (p:block) : bool := match offenders p with [] => true | _ => false end.
+
+(* the property at full strength (labels unique per function): refuted, see Properties.v *)
+Definition analyzer_sound_full : Prop := forall p, analyzer_ok p = true -> rule_ok_full p = true.
